@@ -85,6 +85,16 @@ class _Merged(object):
             s.pipe(*self.ops).subscribe(on_next=on_next, on_error=on_error)
 
 
+class _Pool(reactivex.scheduler.ImmediateScheduler):
+    """Stands for the controller's thread pool: runs what it is given at once (the harness decides *when* it is given
+    something) and counts the hand-overs so that the hand-over operator of a chain can be recognised."""
+    hits = 0
+
+    def schedule(self, action, state=None):
+        self.hits += 1
+        return super(_Pool, self).schedule(action, state)
+
+
 class Sched(object):
     def __init__(self, ctx, max_actions, restarts):
         self.ctx = ctx
@@ -93,6 +103,7 @@ class Sched(object):
         self.comps = {}
         self.subs = {}           # (name, kind) -> [(ops, on_next, on_error)]
         self.pm_pending = []
+        self.pm_staged = {}      # name -> [per exit: [(values that passed the pre-pool operators, post-pool operators, on_next, on_error)]]
         self.fin_sent = set()
         self.running = set()     # engines with a task that has not exited yet
         self.pending_kill = set()
@@ -100,6 +111,7 @@ class Sched(object):
         self.trace = []
         self.launch_order = []
         self.ctl = None
+        self.reasons = {}        # optional restriction of the exit reasons of a component (focused programs)
 
     # ---- callbacks from the stubs
     def on_stagein(self, comp): pass
@@ -116,6 +128,46 @@ class Sched(object):
 
     def on_subscribe(self, comp, kind, on_next, ops, on_error):
         self.subs.setdefault((comp.name, kind), []).append((ops, on_next, on_error))
+
+    # ---- where in the operator chain does the hand-over to the controller pool happen?
+    def split_at_pool(self, ops):
+        """(operators evaluated when the value is emitted, operators evaluated when the pool delivers it).  The operator
+        that hands over to ctl.controllerPool is recognised by behaviour: it is the one that calls the pool's schedule()."""
+        pool = self.ctl.controllerPool
+        probe = ({'state': codes.POSTMORTEM_STATE, 'isAlive': True}, types.SimpleNamespace(finishCalled=False))
+        for i, o in enumerate(ops):
+            before = pool.hits
+            try:
+                reactivex.just(probe).pipe(o).subscribe(on_next=lambda v: None, on_error=lambda e: None)
+            except Exception:
+                pass
+            if pool.hits > before:
+                return tuple(ops[:i]), tuple(ops[i + 1:])
+        return (), tuple(ops)
+
+    def stage_postmortem(self, name, emission):
+        """The task has just exited: the part of every subscription's chain that precedes the pool runs now, the rest when
+        the solver lets the pool deliver."""
+        records = []
+        for ops, on_next, on_error in list(self.subs.get((name, 'postmortem'), [])):
+            pre, post = self.split_at_pool(ops)
+            passed = []
+            try:
+                reactivex.just(emission).pipe(*pre).subscribe(on_next=passed.append, on_error=lambda e: None)
+            except Exception:
+                pass
+            records.append((passed, post, on_next, on_error))
+        self.pm_staged.setdefault(name, []).append(records)
+        self.pm_pending.append(name)
+
+    def deliver_postmortem(self, name):
+        records = self.pm_staged[name].pop(0)
+        for passed, post, on_next, on_error in records:
+            for emission in passed:
+                try:
+                    reactivex.just(emission).pipe(*post).subscribe(on_next=on_next, on_error=on_error)
+                except Exception:
+                    pass    # report_exceptions re-raises after logging; rx would route it to on_error / swallow it
 
     # ---- emissions through the real rx operators
     def emit(self, name, kind, emission, once=False):
@@ -154,28 +206,28 @@ class Sched(object):
         if kind == 'exit':
             j = len(self.execs[name])
             if name in self.pending_kill:
-                reason = self.ctx.choice('exit:%s:%d' % (name, j), ['Killed'] + REASONS)
+                reason = self.ctx.choice('exit:%s:%d' % (name, j), ['Killed'] + self.reasons.get(name, REASONS))
             else:
-                reason = self.ctx.choice('exit:%s:%d' % (name, j), REASONS)
+                reason = self.ctx.choice('exit:%s:%d' % (name, j), self.reasons.get(name, REASONS))
             self.execs[name].append(reason)
             self.running.discard(name)
             self.pending_kill.discard(name)
             c.engine._setExitReason(reason)
             self.trace.append(('exit', name, reason))
             if c.state == codes.POSTMORTEM_STATE:
-                self.pm_pending.append(name)
+                self.stage_postmortem(name, ({'state': codes.POSTMORTEM_STATE, 'isAlive': True}, c))
         elif kind == 'kill-done':
             self.pending_kill.discard(name)
             c.engine._setExitReason('Killed')
             self.trace.append(('kill-done', name))
             if c.state == codes.POSTMORTEM_STATE:
-                self.pm_pending.append(name)
+                self.stage_postmortem(name, ({'state': codes.POSTMORTEM_STATE, 'isAlive': True}, c))
         elif kind == 'postmortem':
             self.pm_pending.remove(name)
             self.trace.append(('postmortem', name))
             # the emission was produced when the task exited; it is delivered whatever the state has become since
-            # (the subscription's own filter on finishCalled decides whether the controller still acts on it)
-            self.emit(name, 'postmortem', ({'state': codes.POSTMORTEM_STATE, 'isAlive': True}, c))
+            # (the operators placed after the hand-over to the pool - on the clean tree the filter on finishCalled - run now)
+            self.deliver_postmortem(name)
         elif kind == 'finished':
             self.fin_sent.add(name)
             self.trace.append(('finished', name, c.state))
@@ -204,7 +256,7 @@ def build(ctx, program, sched, shutdown_on, restartable):
     comps_def, edges = PROGRAMS[program]
     g = networkx.DiGraph()
     ctl = new_controller()
-    ctl.controllerPool = reactivex.scheduler.ImmediateScheduler()
+    ctl.controllerPool = _Pool()
     n_stages = 1 + max(st for _, st, _ in comps_def)
     stage_state = workflow.StageState(0)
     for name, st, attrs in comps_def:
@@ -288,11 +340,12 @@ def reference(program, execs, shutdown_on, restartable, max_restarts=1):
     return state, unrecoverable, missing
 
 
-def make_body(program, max_actions, with_restarts):
+def make_body(program, max_actions, with_restarts, reasons=None):
     def body(ctx):
-        shutdown_on = ['KnownIssue'] if ctx.flag('shutdownOn_KnownIssue') else []
+        shutdown_on = ['KnownIssue'] if (not reasons and ctx.flag('shutdownOn_KnownIssue')) else []
         restartable = ['ResourceExhausted'] if with_restarts else []
         sched = Sched(ctx, max_actions, with_restarts)
+        sched.reasons = reasons or {}
         ctl, g, n_stages = build(ctx, program, sched, shutdown_on, restartable)
         tracker = StubTracker(lambda: True)
 
@@ -354,7 +407,7 @@ def make_body(program, max_actions, with_restarts):
 
 
 def factory(param):
-    return make_body(param['program'], param['max_actions'], param['restarts'])
+    return make_body(param['program'], param['max_actions'], param['restarts'], param.get('reasons'))
 
 
 def signature(param, assignment, message, detail):
@@ -365,7 +418,7 @@ def main(tier, seed, only=None):
     rep = Report('C02', tier, seed)
     quick = tier == 'quick'
     max_actions = 14 if quick else 22
-    max_paths = 400000 if quick else 10000000
+    max_paths = 480000 if quick else 10000000
     rep.functions = ['control.Controller.run', '_schedule', 'finalize_submit_components', 'finishedCheck', 'postMortemCheck',
                      '_restartComponent', 'TransitionComponentToFinalState', '_fake_finish_with_state', '_stopComponents',
                      'kill_all_components', 'handleError', '_handleMigration', 'get_nodes_in_stage', 'workflow.StageState.state',
@@ -378,7 +431,7 @@ def main(tier, seed, only=None):
                   'max_paths': max_paths}
     rep.outside = ['real threads and preemption at arbitrary bytecodes (switch points are the two blocking calls)', 'rx timing operators',
                    'DoWhile growth during the stage', 'optimizer', 'completionCheck hooks', 'repeating components (see C13)']
-    rep.assumptions = ['each notification is delivered exactly once, in any order; notifyFinished only after the component is not alive',
+    rep.assumptions = ['each notification is delivered exactly once, in any order; notifyFinished only after the component is not alive', 'operators placed before the hand-over to controllerPool in a post-mortem subscription run when the task exits, those after it when the solver lets the pool deliver (the hand-over operator is recognised by its call to the pool)',
                        'Engine.run replaced by a recorder; a kill lands as exit reason Killed at a later, solver-chosen step',
                        'system stability always reported stable', 'stutter steps (a wait() that times out with nothing happening) are skipped']
     rep.explanation = ('bounded symbolic execution (symx/z3) with a cooperative scheduler: which enabled logical-thread action runs at each '
@@ -389,6 +442,9 @@ def main(tier, seed, only=None):
     if quick:
         # restartable exits (ResourceExhausted, one restart) on the two smallest concurrent programs
         params += [{'program': pr, 'max_actions': max_actions, 'restarts': True, 'name': pr + '+restarts'} for pr in ('independent', 'chain')]
+    # a restartable exit of one component racing with the failure of an independent one, every interleaving (two exit reasons each)
+    params.append({'program': 'independent', 'max_actions': max_actions, 'restarts': True, 'name': 'independent+restarts/focused',
+                   'reasons': {'a': ['ResourceExhausted', 'Success'], 'b': ['UnknownIssue', 'Success']}})
     if only:
         params = [p for p in params if p['name'] in only]
     s = explore_parallel('orderings', factory, params, signature=signature, seed=seed, chunk=300, max_paths=max_paths,
